@@ -78,7 +78,10 @@ RULE = (
     "Scan alphabet: integer frame indices (negative, out of range), frame slices, spatial crops via __getitem__ and "
     "crop_by_pixels, timestamp-based frame slices, scan[item] as the user writes it (frame bounds as index / timestamp / "
     "time string, 0-2 spatial slices, refused items: steps, scalar spatial items, floats, lists); both fast-axis orders, "
-    "single- and multi-frame; start/stop of every view are observed. Exhaustive over "
+    "single- and multi-frame, complete and with a recording stopped inside the last frame (cut after any pixel, inside a "
+    "pixel or in a dead time; the rest of the frame is zero padded), time windows on / beside the frame edges and inside the "
+    "exposures, list bounds (refused); start/stop of every view are observed; empty objects are asked for their images "
+    "(no data); downsampled_by also with a factor left to its default. Exhaustive over "
     "the alphabet for length<=2 on fixed small objects, seeded random beyond. Non-trivial: the program changes the "
     "image (not the identity), or ends in an empty object / documented error."
 )
@@ -200,6 +203,8 @@ def enc_kbound(b):
         return "N"
     if isinstance(b, str):
         return "s" + ".".join(str(ord(c)) for c in b)
+    if isinstance(b, list):
+        return "O"  # scan[[0]:]: a bound that is neither a number nor a string (refused)
     return str(int(b))
 
 
@@ -277,6 +282,9 @@ def apply_kop(k, op):
     if n == "flip":
         return k.flip()
     if n == "down":
+        if len(op) > 3 and op[3] == "defaults":  # as a user writes it: a factor of 1 is not mentioned
+            kw = {name: v for name, v in (("time_factor", op[1]), ("position_factor", op[2])) if v != 1}
+            return k.downsampled_by(**kw)
         return k.downsampled_by(time_factor=op[1], position_factor=op[2])
     if n == "downr":
         return k.downsampled_by(time_factor=op[2], position_factor=op[3], reduce={"max": np.max, "min": np.min, "ptp": np.ptp}[op[1]])
@@ -325,9 +333,18 @@ def absent_shape(g):
     return f"{g.shape[0]}x{g.shape[1]}" + ("" if not np.any(g) else "-nonzero")
 
 
+def shape_txt(a):
+    return "x".join(str(int(n)) for n in np.asarray(a).shape) or "scalar"
+
+
+def show_empty(o):
+    """an empty (falsy) object still answers get_image: what it hands out is observed (must be no data at all)"""
+    return f"empty red={shape_txt(o.get_image('red'))} rgb={shape_txt(o.get_image('rgb'))}"
+
+
 def show_kymo(k):
     if not k:
-        return "empty"
+        return show_empty(k)
     if int(k.pixels_per_line) == 0:
         return "degenerate"  # position factor larger than the number of pixels: nothing left to observe
     img = np.asarray(k.get_image("red"))
@@ -365,7 +382,7 @@ def show_kymo(k):
 
 def show_scan(s):
     if not s:
-        return "empty"
+        return show_empty(s)
     img = np.asarray(s.get_image("red"))
     nf = int(s.num_frames)
     if img.ndim == 2:
@@ -436,6 +453,13 @@ def fields(s):
 
 
 def agree(case, i, ia, ma):
+    if case["kind"] == "scan" and "trunc" in case["layout"] and len(case["program"]) > 1:
+        flags = {}
+        scan_judge(case, ia, flags)
+        if flags.get("unsorted"):
+            return True  # a time looked up among frame times that are not in order: outside the model's searchsorted
+    if ia.startswith("empty "):
+        return ma == "empty"  # the model says "empty"; the images an empty object hands out are judged by the oracle
     fi, fm = fields(ia), fields(ma)
     if fi is None or fm is None:
         return ia == ma
@@ -601,6 +625,10 @@ def oracle(case, ia):
                     break
                 px = Fraction(op[1]) / ref.shape[0]
                 kbp = True
+        if status == "empty":
+            # no line selected: the NumPy operation on the source image leaves all rows and no column
+            want_e = f"empty red={ref.shape[0]}x0 rgb={ref.shape[0]}x0x3"
+            return None if ans == want_e else f"program {case['program']}: expected {want_e} (no lines of the {ref.shape[0]} pixel rows), implementation gave {ans[:200]}"
         if status != "view":
             return None if ans == status else f"program {case['program']}: expected {status}, implementation gave {ans[:200]}"
         if ref.shape[0] == 0:
@@ -655,16 +683,29 @@ def oracle(case, ia):
         elif not (got_pt[0].isdigit() and abs(Fraction(got_pt) * 10**9 - want_pt) <= Fraction(1, 10**9) * want_pt):
             return f"pixel_time_seconds {got_pt} s but the source's pixels are {case['layout']['k'] * case['dt']} ns long and {pf_total} of them were binned"
         return None
-    # scan
+    return scan_judge(case, ans, {})
+
+
+def scan_judge(case, ans, flags):
+    """the oracle for scans.  flags["unsorted"] is set when a timestamp / time string was looked up on a view whose frame
+    starts or stops are not in order (a crop left only never-recorded, zero-padded pixels at [0,0] / in the whole of an
+    unfinished last frame): what "the frames in the window" means is then open, nothing is judged and the model (whose
+    searchsorted is specified for sorted lists, NumPy's bisection is not) is not compared either"""
     frames = scan_reference(case)
     cur = [np.array([[p[0] for p in row] for row in f], dtype=np.int64) for f in frames]
     tmin = [np.array([[p[1] for p in row] for row in f], dtype=np.int64) for f in frames]
     tmax = [np.array([[p[2] for p in row] for row in f], dtype=np.int64) for f in frames]
     status = "view"
 
+    def lookup_ranges(tmin, tmax):
+        r = rng_of(tmin, tmax)
+        if any(r[i][c] > r[i + 1][c] for i in range(len(r) - 1) for c in (0, 1)):
+            flags["unsorted"] = True
+        return r
+
     def rng_of(tmin, tmax):
-        if len(tmin) == 1:
-            return [(int(tmin[0].min()), int(tmax[0].max()) + case["dt"])]
+        # a frame is exposed from its first pixel to one sample period past the latest sample of any of its pixels (the
+        # never recorded pixels of an unfinished frame are zero padded: neither the earliest nor the latest)
         return [(int(a[0, 0]), int(b.max()) + case["dt"]) for a, b in zip(tmin, tmax)]
 
     FIRST_TS = 1388534400000000000  # integers below it are frame indices
@@ -684,9 +725,16 @@ def oracle(case, ia):
                     status = "IndexError"
                     break
             else:
-                r = rng_of(tmin, tmax)
+                r = None
                 idx = []
+                if any(isinstance(b, str) or (isinstance(b, int) and b >= FIRST_TS) for b in (fi[1], fi[2])):
+                    lookup_ranges(tmin, tmax)  # (a string may still resolve to a frame index: abstaining is the safe side)
+                    if flags.get("unsorted"):
+                        return None
                 for bnd, col in ((fi[1], 0), (fi[2], 1)):
+                    if isinstance(bnd, list):
+                        status = "IndexError"  # slicing by a list is not supported (the start bound is read first)
+                        break
                     if isinstance(bnd, str):
                         ns_ = plain_time_string_ns(bnd)
                         if ns_ is None or win is None:
@@ -695,7 +743,12 @@ def oracle(case, ia):
                     if bnd is None or bnd < FIRST_TS:
                         idx.append(bnd)
                     else:
+                        r = r or lookup_ranges(tmin, tmax)
                         idx.append(int(np.searchsorted([x[col] for x in r], bnd)))
+                if flags.get("unsorted"):
+                    return None
+                if status != "view":
+                    break
                 sel = list(range(len(cur)))[idx[0] : idx[1]]
             if any(a[0] != "s" for a in sp):
                 status = "IndexError"
@@ -721,7 +774,9 @@ def oracle(case, ia):
                 a = b = None
                 xs, ys = slice(op[1], op[2]), slice(op[3], op[4])
             else:
-                r = rng_of(tmin, tmax)
+                r = rng_of(tmin, tmax) if op[1] is None and op[2] is None else lookup_ranges(tmin, tmax)
+                if flags.get("unsorted"):
+                    return None
                 a = None if op[1] is None else int(np.searchsorted([x[0] for x in r], op[1]))
                 b = None if op[2] is None else int(np.searchsorted([x[1] for x in r], op[2]))
                 ys = xs = slice(None)
@@ -738,6 +793,12 @@ def oracle(case, ia):
         tmax = [tmax[j][ys, xs] for j in sel]
         if n != "cropxy":  # every __getitem__ stamps start/stop anew; crop_by_pixels keeps them
             win, stamped_first = None, int(tmin[0][0, 0])
+    if status == "empty":
+        # no frame selected: whatever shape the images of the empty object have, they hold no data
+        fe = dict(t.split("=", 1) for t in ans.split(" ")[1:]) if ans.startswith("empty ") else None
+        if fe is None or any("0" not in fe[c].split("x") for c in ("red", "rgb")):
+            return f"program {case['program']}: expected an empty scan whose images hold no data, implementation gave {ans[:200]}"
+        return None
     if status != "view":
         return None if ans == status else f"program {case['program']}: expected {status}, implementation gave {ans[:200]}"
     f = fields(ans)
@@ -750,8 +811,9 @@ def oracle(case, ia):
     if f["ranges"] != wr:
         return f"frame ranges {f['ranges'][:200]} but the selected frames/pixels span {wr[:200]}"
     # the view's own window lies inside the source's; after a __getitem__ it starts with pixel [0,0] of its first frame
+    # (a frame whose first shown pixel was never recorded carries no start time: window not judged)
     w0, w1 = kymo_window(case)
-    if not (w0 <= int(f["start"]) <= int(f["stop"])):
+    if all(int(a[0, 0]) > 0 for a in tmin) and not (w0 <= int(f["start"]) <= int(f["stop"])):
         return f"start/stop {f['start']}/{f['stop']} not a window inside the source's, which starts at {w0}"
     if stamped_first is not None and stamped_first > 0 and int(f["start"]) != stamped_first:
         return f"start {f['start']} of an indexed scan is not the timestamp {stamped_first} of the first pixel of its first frame"
@@ -822,8 +884,16 @@ def kymo_case(P, lines, k, lead, dead, trunc_pixels=None, pixel_nm=125.0, dt=128
     return {"kind": "kymo", "layout": lay, "counts": det_counts(n, salt), "pixel_nm": pixel_nm, "dt": dt}
 
 
-def scan_case(P, L, frames, k, lead, dead, frame_dead, fast, slow, dt=12800, scan_count=0, salt=0):
+def scan_case(P, L, frames, k, lead, dead, frame_dead, fast, slow, dt=12800, scan_count=0, salt=0, unfinished=None):
+    """`unfinished=(m, extra)`: the recording was stopped inside the last frame, `extra` samples after its `m`-th pixel
+    (1 <= m < P*L) was completed; `extra` is cut down to stay short of the next pixel boundary, so the cut may fall
+    inside a pixel, between pixels or in a dead time, and exactly m pixels of the last frame exist"""
     lay = {"P": P, "L": L, "lines": L * frames, "k": k, "lead_in": lead, "dead": dead, "frame_dead": frame_dead}
+    if unfinished is not None:
+        m, extra = unfinished
+        bpos = [i for i, c in enumerate(bc.layout_infowave(lay)) if c == bc.BOUNDARY]
+        at = (frames - 1) * P * L + m - 1
+        lay["trunc"] = bpos[at] + 1 + max(0, min(extra, bpos[at + 1] - bpos[at] - 1))
     n = len(bc.layout_infowave(lay))
     return {"kind": "scan", "layout": lay, "counts": det_counts(n, salt), "dt": dt, "fast": fast, "slow": slow, "scan_count": scan_count}
 
@@ -850,6 +920,8 @@ def kymo_alphabet(case, rng=None, full=True):
     ops_.append(["flip"])
     for tf, pf in itertools.product((1, 2, 3), (1, 2, 3)):
         ops_.append(["down", tf, pf])
+    for tf, pf in ((1, 1), (2, 1), (1, 2), (3, 1), (1, 3)):
+        ops_.append(["down", tf, pf, "defaults"])  # downsampled_by(time_factor=2): the other factor is left to its default
     # other reducers; np.ptp does not factor into a reduction over position followed by one over time
     for red, (tf, pf) in itertools.product(("ptp", "max", "min"), ((2, 2), (2, 3), (3, 2), (1, 2), (2, 1))):
         if red == "ptp" or (tf, pf) == (2, 2):
@@ -949,7 +1021,9 @@ def scan_alphabet(case, rng=None):
     # timestamps on / around the frame range edges
     tmin = [f[0][0][1] for f in frames]
     tmax = [max(p[2] for row in f for p in row) + case["dt"] for f in frames]
-    pts = sorted(set(tmin + tmax + [t + 1 for t in tmin] + [t - 1 for t in tmax]))
+    # … and inside every frame's exposure (a window may end while a frame is being recorded), one past its stop
+    mids = [(a + b) // 2 for a, b in zip(tmin, tmax)]
+    pts = sorted(set(tmin + tmax + [t + 1 for t in tmin] + [t - 1 for t in tmax] + mids + [t + 1 for t in tmax]))
     if rng is not None and len(pts) > 6:
         pts = rng.sample(pts, 6)
     for a, b in itertools.product([None] + pts, [None] + pts):
@@ -966,14 +1040,22 @@ def scan_item_alphabet(case, frames, tmin, tmax, rng=None):
     n = len(frames)
     js = sorted({0, n - 1, n // 2})
     bounds = [None, 0, 1, -1, n]
+    inside, core = [], [None, 0, -1]
     for j in js:
         a, b = tmin[j], tmax[j]
+        mid = (a + b) // 2  # inside the frame's exposure: a window may start or end while a frame is being recorded
         forms = [a, b, f"{a - w0}ns", f"{(a - w0) // 1000}us {(a - w0) % 1000}ns", f"{a - w0 + 1}ns", f"{b - w0}ns", f"{b - w0 - 1}ns",
                  f"-{w1 - b}ns", f"-{(w1 - a) // 1000}.{(w1 - a) % 1000:03d}us"]
         if rng is not None:
-            forms = rng.sample(forms, 3)
+            forms = rng.sample(forms + [mid, f"{mid - w0}ns"], 3)
+        else:
+            inside.extend([mid, f"{mid - w0}ns"])
+            core.extend([a, f"{b - w0}ns"])
         bounds.extend(forms)
     out = [["get", ["s", a, b], []] for a, b in itertools.product(bounds, bounds)]
+    # (exhaustive mode: the points inside the exposures are paired with a coarser set of other bounds and with each other)
+    out += [["get", ["s", a, b], []] for a, b in list(itertools.product(inside, core)) + list(itertools.product(core, inside))]
+    out += [["get", ["s", a, b], []] for a, b in itertools.product(inside[0::2], inside[1::2])]
     if rng is not None and len(out) > 25:
         out = rng.sample(out, 25)
     spat = [[["s", 1, None]], [["s", None, None], ["s", None, -1]], [["s", 0, 1], ["s", 1, 2]], [["s", 5, None]]]
@@ -987,7 +1069,10 @@ def scan_item_alphabet(case, frames, tmin, tmax, rng=None):
             ["get", ["s", None, None], [["sstep", None, None]]], ["get", ["s", None, None], [["s", None, None], ["o"]]],
             ["get", ["i", n + 3], [["i", 0]]], ["get", ["sstep", None, None], [["i", 0]]],
             ["get", ["s", "abc", None], []], ["get", ["s", None, "1ns 1us"], []], ["get", ["s", "", None], []],
-            ["get", ["s", " 5 ns", None], [["i", 0]]]]
+            ["get", ["s", " 5 ns", None], [["i", 0]]],
+            # bounds that are neither numbers nor strings
+            ["get", ["s", [0], None], []], ["get", ["s", None, [0, 1]], []], ["get", ["s", [0], "abc"], []], ["get", ["s", "abc", [0]], []],
+            ["get", ["s", 0, []], [["s", None, None]]], ["get", ["s", [1], None], [["i", 0]]]]
     return out
 
 
@@ -1004,6 +1089,16 @@ def cases(tier, rng):
     yield dict(base, stream="corpus", program=[["slice", ranges[1][0], ranges[2][0] + 1], ["slice", ranges[0][0] - 5, ranges[3][1] + 10**9]])
     yield dict(base, stream="corpus", program=[["slice", ranges[0][0], ranges[1][0]], ["slice", ranges[0][0], ranges[3][1] + 1], ["flip"]])
 
+    # a second calibration to base pairs is refused, also after other operations; the first one survives them
+    yield dict(base, stream="corpus", program=[["kbp", "3/4"], ["kbp", "6"]])
+    yield dict(base, stream="corpus", program=[["kbp", "3/4"], ["down", 1, 2], ["kbp", "6"]])
+    yield dict(base, stream="corpus", program=[["crop", "1/8", "3/8"], ["kbp", "3/4"], ["flip"]])
+    # round H (thorough, seed 0): a crop leaves only never-recorded pixels of the unfinished last frame, then a time string is
+    # looked up among frame starts [t, 0] that are not in order (NumPy bisects, the model counts): not judged, not compared
+    yield dict(scan_case(4, 3, 2, 2, 0, 0, 1, 2, 1, unfinished=(3, 0)), stream="corpus",
+               program=[["cropxy", -1, None, -1, None], ["get", ["s", "12800ns", bc.START + 742400], [["s", 5, None]]]])
+    yield dict(scan_case(3, 2, 3, 2, 0, 0, 2, 0, 1, unfinished=(3, 0)), stream="corpus",
+               program=[["slice", 1, None, 1, None, None, None, "tuple"], ["get", ["s", "-307200ns", "12us 800ns"], []]])
     # ---- exhaustive small scope: all programs of length <= 2 over the alphabet on fixed small objects
     kobjs = [kymo_case(3, 4, 2, 1, 2), kymo_case(4, 3, 1, 0, 1, trunc_pixels=2, pixel_nm=250.0)]
     if not quick:
@@ -1036,23 +1131,37 @@ def cases(tier, rng):
                              dt=sub.choice([12800, 1000, 16]), salt=i), kind="regular", stream="random", program=[], subseed=i)
     # ---- pixel sizes that are not binary fractions: the crop is executed in floating point (cropf)
     yield from float_crop_cases(quick, rng)
-    sobjs = [scan_case(3, 2, 3, 1, 1, 1, 2, 0, 1), scan_case(2, 3, 2, 2, 0, 1, 0, 1, 0), scan_case(3, 3, 1, 1, 0, 1, 1, 0, 1)]
+    sobjs = [scan_case(3, 2, 3, 1, 1, 1, 2, 0, 1), scan_case(2, 3, 2, 2, 0, 1, 0, 1, 0), scan_case(3, 3, 1, 1, 0, 1, 1, 0, 1),
+             # recording stopped inside the last frame (its remaining pixels are zero padded, image and timestamps alike)
+             scan_case(3, 2, 3, 2, 1, 1, 2, 0, 1, unfinished=(2, 1))]
     if not quick:
         sobjs += [scan_case(2, 2, 4, 1, 2, 0, 3, 1, 2), scan_case(4, 2, 1, 2, 1, 2, 0, 1, 0, scan_count=1)]
     # every order of the scan axes (X, Y, Z = 0, 1, 2): the first three objects get the full product, the others a sample
     n_full = len(sobjs)
     sobjs += [scan_case(3, 2, 2, 2, 1, 1, 1, 1, 2), scan_case(2, 3, 2, 1, 0, 1, 2, 2, 0), scan_case(3, 3, 2, 2, 1, 0, 1, 2, 1),
-              scan_case(2, 2, 3, 1, 1, 1, 0, 0, 2)]
+              scan_case(2, 2, 3, 1, 1, 1, 0, 0, 2), scan_case(2, 3, 4, 1, 0, 1, 1, 1, 0, unfinished=(4, 0)),
+              scan_case(3, 2, 1, 2, 1, 0, 0, 0, 1, unfinished=(4, 1))]
     for oi, obj in enumerate(sobjs):
         yield dict(obj, stream="small-scope", program=[])
         alpha = scan_alphabet(obj)
-        for o in alpha:
-            yield dict(obj, stream="small-scope", program=[o])
         r2 = rng.fork("s2")
         light = quick or oi >= n_full
+        level1 = alpha
+        if quick and oi >= n_full:
+            # the resolution of frame bounds does not depend on the axis order: the objects that only vary the axes get a
+            # sample of the (hundreds of) bound combinations of scan[a:b] in the quick tier
+            plain = [o for o in alpha if o[0] == "get" and o[1][0] == "s" and not o[2]]
+            keep = {id(o) for o in r2.fork("level1").sample(plain, min(len(plain), 300))}
+            level1 = [o for o in alpha if not (o[0] == "get" and o[1][0] == "s" and not o[2]) or id(o) in keep]
+        for o in level1:
+            yield dict(obj, stream="small-scope", program=[o])
         items = [o for o in alpha if o[0] == "get"]
         alpha2 = [o for o in alpha if o[0] != "get"] + r2.sample(items, min(len(items), 10))
-        a1 = alpha2 if not light else r2.sample(alpha, min(len(alpha), 40 if oi < n_full else 15))
+        if not light:  # thorough: every first op, but of the (hundreds of) timestamp windows a sample
+            tw = [o for o in alpha2 if o[0] == "slicet"]
+            a1 = [o for o in alpha2 if o[0] != "slicet"] + r2.sample(tw, min(len(tw), 170))
+        else:
+            a1 = r2.sample(alpha, min(len(alpha), 40 if oi < n_full else 15))
         a2 = alpha2 if not light else r2.sample(alpha, min(len(alpha), 25 if oi < n_full else 12))
         for o1, o2 in itertools.product(a1, a2):
             # timestamps of the second op must be drawn for the derived object; keep index/slice/crop ops only
@@ -1083,8 +1192,10 @@ def cases(tier, rng):
             frames = sub.randint(1, 4)
             # P, L >= 2: pylake squeezes singleton image axes, which turns a one-line/one-pixel scan into a
             # lower-dimensional array (outside what the property calls a scan)
-            obj = scan_case(sub.randint(2, 4), sub.randint(2, 4), frames, sub.randint(1, 2), sub.randint(0, 2), sub.randint(0, 2),
-                            sub.randint(0, 3), fast, slow, dt=sub.choice([12800, 1000]), scan_count=sub.choice([0, 0, frames]), salt=i)
+            sP, sL = sub.randint(2, 4), sub.randint(2, 4)
+            obj = scan_case(sP, sL, frames, sub.randint(1, 2), sub.randint(0, 2), sub.randint(0, 2),
+                            sub.randint(0, 3), fast, slow, dt=sub.choice([12800, 1000]), scan_count=sub.choice([0, 0, frames]), salt=i,
+                            unfinished=(sub.randint(1, sP * sL - 1), sub.randint(0, 3)) if sub.chance(0.3) else None)
             alpha = scan_alphabet(obj, rng=sub)
             prog = [sub.choice(alpha)]
             for _ in range(plen - 1):
@@ -1096,7 +1207,7 @@ def extra_coverage(results):
     outcomes, opsn, kinds = {}, {}, {}
     for r in results:
         a = r["impl"][0]
-        key = "view" if a.startswith("view") else a
+        key = "view" if a.startswith("view") else a.split(" ")[0]
         outcomes[key] = outcomes.get(key, 0) + 1
         kinds[r["case"]["kind"]] = kinds.get(r["case"]["kind"], 0) + 1
         for o in r["case"]["program"]:
@@ -1111,6 +1222,8 @@ def extra_coverage(results):
             return "None"
         if isinstance(b, str):
             return "string"
+        if isinstance(b, list):
+            return "other"
         return "index" if abs(b) < 1388534400000000000 else "timestamp"
 
     for r in results:
